@@ -115,7 +115,7 @@ func verifHarness_C09_order(sc int) {
 			if sc != 2 {
 				n := verifNondetInt("chunk")
 				verifAssume(n >= 1)
-				verifAssume(n <= 1<<20)
+				verifAssume(n <= 4)
 				op.Inputs(vs)
 				op.InputAck(n)
 			}
